@@ -161,6 +161,8 @@ Definition ent_GetAllLockedUnds (w : eworld) : list go_LockedUnd :=
   map (fun kv => mk_go_LockedUnd (fst kv) (snd kv)) (e_locked (ew_ent w)).
 Definition ent_GetAllSpentEFUNDs (w : eworld) : list go_SpentEFUND :=
   map (fun kv => mk_go_SpentEFUND (fst kv) (snd kv)) (e_spent (ew_ent w)).
+(* in the model's order (insertion); the chain iterates the store in address-byte order - abstract addresses carry no
+   order, so statements about this listing are up to permutation *)
 Definition ent_GetAllWhitelistedAddresses (w : eworld) : list addr := e_wl (ew_ent w).
 Definition params_to_go (p : ent_params) : go_Params :=
   {| Params_EntSigners := ep_signers p; Params_Denom := ep_denom p; Params_MinAccepts := ep_min_accepts p;
